@@ -1,0 +1,28 @@
+//go:build verif
+// +build verif
+
+// Package verifhook marks the points between the read and the write of DVID's
+// read-modify-write sequences.  In a normal build Yield does nothing.  Built with
+// the tag "verif", a verification harness can install a callback that runs at these
+// points (to hold one request there while another one runs).
+package verifhook
+
+import "sync/atomic"
+
+var callback atomic.Value // of func(site string)
+
+// Set installs the function called at every Yield (nil removes it).  It runs on the
+// goroutine that reached the yield point and may block.
+func Set(f func(site string)) {
+	if f == nil {
+		f = func(string) {}
+	}
+	callback.Store(f)
+}
+
+// Yield marks a point between the read and the write of a read-modify-write sequence.
+func Yield(site string) {
+	if f, ok := callback.Load().(func(string)); ok && f != nil {
+		f(site)
+	}
+}
